@@ -222,18 +222,25 @@ def limit(ctx: Ctx) -> List[Ob]:
             continue
         props = ["C09", "C02"] if f.qualname == "Tree.find_all" else ["C09"]
         # LIMIT-1: slices
+        def mentions_limit_(e: ast.AST) -> bool:
+            return any(isinstance(x, ast.Name) and x.id == "max_results" for x in ast.walk(e))
+
         for n in iter_own(f.node):
             if isinstance(n, ast.Subscript) and isinstance(n.slice, ast.Slice):
                 sl = n.slice
                 mentions = any(isinstance(x, ast.Name) and x.id == "max_results" for x in ast.walk(sl))
                 if not mentions:
                     continue
-                ok = (
-                    sl.upper is not None and norm(sl.upper) == "max_results"
-                    and (sl.lower is None or (isinstance(sl.lower, ast.Constant) and sl.lower.value == 0))
-                    and sl.step is None
-                )
-                obs.append(ctx.ob("LIMIT", props, f, f"slice {norm(n)}", n, ok,
+                from_zero = (sl.lower is None or (isinstance(sl.lower, ast.Constant) and sl.lower.value == 0)) and sl.step is None
+                if sl.upper is not None and norm(sl.upper) in ("max_results", "max_results or None") and from_zero:
+                    ok = True  # (`x[:k or None]`: no limit -> everything)
+                elif sl.lower is not None and mentions_limit_(sl.lower):
+                    ok = False
+                elif sl.upper is not None and norm(sl.upper) == "max_results" and not from_zero:
+                    ok = False
+                else:
+                    ok = None
+                obs.append(ctx.tri("LIMIT", props, f, f"slice {norm(n)}", n, ok,
                                   "" if ok else "the limit must be the upper bound of a slice from 0: this returns everything "
                                   "*after* the first k matches"))
         # LIMIT-2: returns
@@ -260,7 +267,9 @@ def limit(ctx: Ctx) -> List[Ob]:
                                   "" if ok else "this branch returns all matches regardless of max_results"))
         else:
             # generator: the match counter is incremented before `count >= max_results` ends the loop
-            ok = False
+            # (no cut-off test in a yielding loop: the limit may be applied another way - islice, enumerate - unless the
+            # parameter is not read at all)
+            ok = None if any(isinstance(x, ast.Name) and x.id == "max_results" and isinstance(x.ctx, ast.Load) for x in iter_own(f.node)) else False
             why = "no cut-off test on max_results found in the yielding loop"
             for lp in iter_own(f.node):
                 if not isinstance(lp, ast.For) or not any(isinstance(x, ast.Yield) for st in lp.body for x in ast.walk(st)):
@@ -285,7 +294,7 @@ def limit(ctx: Ctx) -> List[Ob]:
                     )
                     ok = cmp_ok and inc_before
                     why = "" if ok else "the match counter must be incremented before it is compared with `>= max_results`"
-            obs.append(ctx.ob("LIMIT", ["C09"], f, "generator stops after max_results matches", None, ok, why))
+            obs.append(ctx.tri("LIMIT", ["C09"], f, "generator stops after max_results matches", None, ok, why))
     # find_first asks for one result and returns the first element or None
     from .util import exit_cases as _ec, find_cases as _fc
 
@@ -301,8 +310,12 @@ def limit(ctx: Ctx) -> List[Ob]:
                           "" if ok else "find_first must limit the search to one result"))
         cases = _ec(ctx, f, ("return",))
         valued = [c for c in cases if c.value is not None and not (isinstance(c.value, ast.Constant) and c.value.value is None)]
-        ok2 = bool(valued) and all(_fc([c], "return", "$$r[0]", [("$$r", True)]) for c in valued)
-        obs.append(ctx.ob("LIMIT", ["C09"], f, "find_first returns res[0] or None", None, ok2,
+        ok2 = None
+        if valued and all(_fc([c], "return", "$$r[0]", [("$$r", True)]) or norm(c.value).startswith("next(iter(") for c in valued):
+            ok2 = True
+        elif valued and any(isinstance(c.value, ast.Subscript) and not isinstance(c.value.slice, ast.Slice) and norm(c.value.slice) != "0" for c in valued):
+            ok2 = False  # an element other than the first
+        obs.append(ctx.tri("LIMIT", ["C09"], f, "find_first returns res[0] or None", None, ok2,
                           "" if ok2 else "find_first must return the first match or None"))
     return obs
 
